@@ -91,6 +91,8 @@ type Op struct {
 
 // Thread is one controlled goroutine.
 type Thread struct {
+	watch   bool
+	worked  []string
 	ID      int
 	Name    string
 	c       *Controller
@@ -135,6 +137,7 @@ type Result struct {
 	PanicStack  string
 	Threads     int
 	Trace       []string // only when Config.Trace
+	Watched     []string // watched threads (WatchRunningInternal) and the non-unlock operations they performed afterwards
 }
 
 // Controller runs one execution.
@@ -158,6 +161,8 @@ type Controller struct {
 	wgs       map[any]*WGState
 	chans     map[uintptr]*ChanState
 	keepAlive []any
+	captured  map[string][]any
+	noBranch  bool
 	// StateHook, when set, contributes harness-observable state to the state signature.
 	env map[string]any
 }
@@ -291,7 +296,7 @@ func (c *Controller) choose(cur *Thread) *Thread {
 	if len(en) == 0 {
 		return nil
 	}
-	if len(en) == 1 {
+	if len(en) == 1 || c.noBranch {
 		return en[0]
 	}
 	sig := uint64(14695981039346656037)
@@ -351,6 +356,13 @@ func (t *Thread) Point(op Op) {
 	t.pending = &op
 	t.nops++
 	c.steps++
+	if t.watch {
+		switch op.Kind {
+		case "unlock", "wunlock", "runlock":
+		default:
+			t.worked = append(t.worked, op.Kind)
+		}
+	}
 	if c.trace {
 		c.res.Trace = append(c.res.Trace, fmt.Sprintf("T%d %s#%d", t.ID, op.Kind, op.Obj))
 	}
@@ -424,6 +436,11 @@ func (c *Controller) finish(o Outcome, self *Thread) {
 	c.res.Outcome = o
 	c.res.Steps = c.steps
 	c.res.Threads = len(c.threads)
+	for _, t := range c.threads {
+		if t.watch && len(t.worked) > 0 {
+			c.res.Watched = append(c.res.Watched, fmt.Sprintf("T%d:%v", t.ID, t.worked))
+		}
+	}
 	if o != Completed {
 		c.res.Blocked = c.blockedList()
 	}
@@ -514,6 +531,7 @@ type Config struct {
 	Bound     int  // maximum number of preemptions (-1: unbounded)
 	Trace     bool // record an operation trace per execution (slow)
 	MaxExecs  int  // cap on executions (0: none); hitting it makes the run non-exhaustive
+	Workers   int  // ExploreP: parallel workers
 	StopAfter func() bool
 }
 
@@ -664,4 +682,180 @@ func init() {
 		panic("vsched: getg self-test failed")
 	}
 	_ = goidSlow
+}
+
+// ExploreP is Explore with a body factory (each execution gets fresh observation state) and
+// cfg.Workers parallel workers sharing one DFS work stack. check must be safe for concurrent use.
+func ExploreP(cfg Config, newBody func() (body func(), obs any), check func(r *Result, obs any) bool) (st Stats) {
+	st = Stats{BoundDone: -1}
+	type item struct {
+		prefix []int
+		sig    []uint64
+	}
+	workers := cfg.Workers
+	if workers < 1 {
+		workers = 1
+	}
+	var mu sync.Mutex
+	cond := sync.NewCond(&mu)
+	stack := []item{{}}
+	busy := 0
+	stop := false
+	states := map[uint64]struct{}{}
+	var wg sync.WaitGroup
+	for w := 0; w < workers; w++ {
+		wg.Add(1)
+		go func() {
+			defer wg.Done()
+			for {
+				mu.Lock()
+				for len(stack) == 0 && busy > 0 && !stop {
+					cond.Wait()
+				}
+				if stop || (len(stack) == 0 && busy == 0) {
+					mu.Unlock()
+					cond.Broadcast()
+
+					return
+				}
+				if (cfg.MaxExecs > 0 && st.Executions >= cfg.MaxExecs) || (cfg.StopAfter != nil && cfg.StopAfter()) {
+					st.Capped = true
+					stop = true
+					mu.Unlock()
+					cond.Broadcast()
+
+					return
+				}
+				it := stack[len(stack)-1]
+				stack = stack[:len(stack)-1]
+				busy++
+				st.Executions++
+				mu.Unlock()
+
+				body, obs := newBody()
+				r := Run(cfg, it.prefix, it.sig, body)
+				ok := check(r, obs)
+
+				var push []item
+				if ok && r.Outcome != Nondeterminism {
+					cost := 0
+					sigs := make([]uint64, len(r.points))
+					for i, p := range r.points {
+						sigs[i] = p.sig
+					}
+					for i, p := range r.points {
+						if i >= len(it.prefix) {
+							for alt := p.nEnabled - 1; alt >= 1; alt-- {
+								c := cost
+								if p.curEnabled {
+									c++
+								}
+								if cfg.Bound >= 0 && c > cfg.Bound {
+									continue
+								}
+								np := make([]int, i+1)
+								copy(np, r.Choices[:i])
+								np[i] = alt
+								push = append(push, item{prefix: np, sig: sigs[:i+1]})
+							}
+						}
+						if p.curEnabled && r.Choices[i] != 0 {
+							cost++
+						}
+					}
+				}
+				mu.Lock()
+				busy--
+				st.Transitions += r.Steps
+				st.ChoicePts += len(r.points)
+				for _, p := range r.points {
+					states[p.state] = struct{}{}
+				}
+				if r.Threads > st.MaxThreads {
+					st.MaxThreads = r.Threads
+				}
+				if r.Steps > st.MaxSteps {
+					st.MaxSteps = r.Steps
+				}
+				for len(st.ByPreempt) <= r.Preemptions {
+					st.ByPreempt = append(st.ByPreempt, 0)
+				}
+				st.ByPreempt[r.Preemptions]++
+				if !ok {
+					st.Capped = true
+					stop = true
+				}
+				stack = append(stack, push...)
+				mu.Unlock()
+				cond.Broadcast()
+			}
+		}()
+	}
+	wg.Wait()
+	st.States = len(states)
+	if !st.Capped {
+		st.BoundDone = cfg.Bound
+	}
+
+	return st
+}
+
+// RunningInternalThreads lists the threads of the calling thread's execution that were spawned without
+// a name (i.e. by the code under test, not by the harness), have started and have not finished.
+func RunningInternalThreads() []string {
+	t := Cur()
+	if t == nil {
+		return nil
+	}
+	var out []string
+	for _, x := range t.c.threads {
+		if x != t && x.Name == "" && x.started && !x.done {
+			op := "running"
+			if x.pending != nil {
+				op = x.pending.Kind
+			}
+			out = append(out, fmt.Sprintf("T%d:%s", x.ID, op))
+		}
+	}
+
+	return out
+}
+
+// SetBranching turns recording of choice points off (setup phases run on the single default
+// schedule: keep running the current thread, else the lowest enabled id) or back on.
+func SetBranching(on bool) {
+	if t := Cur(); t != nil {
+		t.c.noBranch = !on
+	}
+}
+
+// Quiesce lets every other thread run until none of them is enabled (all blocked or finished).
+func Quiesce() {
+	t := Cur()
+	if t == nil {
+		return
+	}
+	t.Point(Op{Kind: "quiesce", Enabled: func() bool {
+		for _, x := range t.c.threads {
+			if x != t && x.enabled() {
+				return false
+			}
+		}
+
+		return true
+	}})
+}
+
+// WatchRunningInternal marks the unnamed (code-under-test) threads that have started and not
+// finished; the operations other than unlocks they perform from now on are reported in Result.Watched.
+func WatchRunningInternal() {
+	t := Cur()
+	if t == nil {
+		return
+	}
+	for _, x := range t.c.threads {
+		if x != t && x.Name == "" && x.started && !x.done {
+			x.watch = true
+		}
+	}
 }
